@@ -116,14 +116,22 @@ func verifSpecHandledSelect(current Identifier, qualified bool, qualifier Identi
 	return current.equal("system")
 }
 
+// scanPos(d, p, to): where the first token equal to `to` (or the end of the input) starts, scanning the
+// abstract token sequence of d from position p.
+//@ specfn scanPos(d, p, to) = ite(ufInt("lex.tok", d, p) == to || ufInt("lex.tok", d, p) == tkEOF, p, scanPos(d, ufInt("lex.end", d, p), to))
+
 //@ loop parser.untilToken #1
 //@   invariant tokcur(l, t)
+//@   invariant scan: scanPos(l.data, old(l.p), to) == ite(t == to || t == tkEOF, l.$ts, scanPos(l.data, l.p, to))
+//@   invariant last: t == to || t == tkEOF ==> t == ufInt("lex.tok", l.data, l.$ts) && l.p == ufInt("lex.end", l.data, l.$ts)
 //@   invariant inv(l) && l.data == old(l.data) && l.m == old(l.m) && l.p >= old(l.p) && l.pe == old(l.pe)
 //@   decreases l.pe - l.p, ite(t == tkEOF, 0, 1)
 
 //@ func parser.untilToken [C09, C06]
 //@   ensures tokcur(l, result)
-//@   requires l != nil && inv(l)
+//@   requires l != nil && inv(l) && to != tkInvalid
+// it stops behind the first `to` token of the statement (or at its end), wherever that is
+//@   ensures scanned: l.$ts == scanPos(old(l.data), old(l.p), to) && result == ufInt("lex.tok", old(l.data), l.$ts) && l.p == ufInt("lex.end", old(l.data), l.$ts) [C09]
 //@   ensures inv(l) && l.data == old(l.data) && l.m == old(l.m) && l.p >= old(l.p) && l.pe == old(l.pe)
 //@   ensures result == to || result == tkEOF
 //@   modifies l.p, l.id, l.$ts
@@ -184,6 +192,10 @@ func verifSpecHandledSelect(current Identifier, qualified bool, qualifier Identi
 //@   ensures decision: $selReached && !$selErr ==> handled == verifSpecHandledSelect(keyspace, $selDot, $selQual, $selTable)
 //@   known decision: $selDot && $selQual.id == "" && !$selQual.ignoreCase
 //@   ensures no-target: !$selReached || $selErr ==> !handled
+// ... and the decision is always taken on that name: a statement that has a FROM followed by an identifier
+// is looked at there, whatever else its text contains (q: where its first FROM token starts)
+//@   let q = scanPos(old(l.data), old(l.p), tkFrom)
+//@   ensures looks-at-the-target: ufInt("lex.tok", old(l.data), q) == tkFrom && ufInt("lex.tok", old(l.data), ufInt("lex.end", old(l.data), q)) == tkIdentifier ==> $selReached
 //@   ensures statement: handled && err == nil ==> typeis(stmt, *SelectStatement) && as(stmt, *SelectStatement).Keyspace == "system" && as(stmt, *SelectStatement).Table == $selTable.id
 //@   ensures well-formed: handled && err == nil ==> stmtOK(as(stmt, *SelectStatement)) [C10]
 //@   modifies l.p, l.id, l.m, l.mid, l.$ts, l.$mts, $selReached, $selDot, $selErr, $selQual, $selTable
